@@ -118,3 +118,6 @@ h=H(); h.provide(0,[],["V0@g1"]); h.decorate(0,[],["V0@g1!2"]); h.invoke(0,["V0@
 emit("F24a-named-slice-consumer-undecorated","C12","C12.group-decorated-content",h,"decorator returns []V0 for group g1; a consumer declaring the group as the named slice type SV0 receives the undecorated members",kind="hist:decor")
 h=H(); h.scope(0); h.provide(0,[],["V0@g1"]); h.decorate(0,[],["V0@g1!1"]); h.decorate(1,[],["V0@g1!2"]); h.fns[-1]["r"][0]["sl"]=2; h.invoke(1,["V0@g1"])
 emit("F24b-named-slice-decorator-bypassed","C12","C12.group-decorated-content",h,"the child's group decorator returns the named slice type TV0: a []V0 consumer in the child receives the ROOT decorator's output",kind="hist:decor")
+# F25 (known, not repaired): IsCycleDetected looks through a user error that wraps a foreign cycle rejection
+h=H(); h.provide(0,[],["V0"],err=True,faults={"1":"digcycerr"}); h.invoke(0,["V0"])
+emit("F25-foreign-cycle-misclassified","C13","C13.foreign-cycle-misclassified",h,"constructor returns an error wrapping another container's cycle rejection: IsCycleDetected(err) is true",kind="hist:faults")
